@@ -1,19 +1,29 @@
 (** Evaluator glue shared by C01 and C02: one case = configuration, rule
-    lists, safe-browsing / parental host sets, request, scripted upstream
-    answer, and what the real pipeline was observed to do. *)
+    lists, safe-browsing / parental host sets, safe-search verdicts, request,
+    scripted upstream answers, and what the real pipeline was observed to do. *)
 From AGH Require Export Base.Run Base.NetAddr Base.RuleEngine Model.Pipeline.
+From AGH Require Model.Rewrites.
 Local Open Scope N_scope.
+
+(** A legacy rewrite as configured (domain, answer, what netip.ParseAddr made
+    of the answer), normalised as filtering.New does. *)
+Definition mk_rw (d a : bytes) (p : option addr) : Rewrites.entry :=
+  Rewrites.normalize
+    {| Rewrites.w_dom := d; Rewrites.w_ans := a;
+       Rewrites.w_parse := option_map (fun x => {| Rewrites.ip_is4 := is4 x; Rewrites.ip_val := a_val x |}) p |}.
 
 Inductive case :=
   | CPipe (c : cfg) (allow block : list rule) (sb par : list bytes)
-          (q : request) (up : option resp) (obs : outcome)
+          (ss : list (bytes * N * ssverdict))
+          (q : request) (ups : list (bytes * option resp)) (up : option resp) (obs : outcome)
   (* the same question asked again on a server whose dnsproxy cache is on:
      [up] is the answer the upstream gave to the FIRST ask (the proxy cache
      replays it), the rule lists are those in force at the repeat.  The
      verdict must be that of a fresh ask; the upstream may or may not be
      asked again, and the proxy rewrites the TTLs of cached records. *)
   | CRepeat (c : cfg) (allow block : list rule) (sb par : list bytes)
-            (q : request) (up : option resp) (obs : outcome).
+            (ss : list (bytes * N * ssverdict))
+            (q : request) (ups : list (bytes * option resp)) (up : option resp) (obs : outcome).
 
 Definition taddr_eqb (a b : taddr) : bool := addr_eqb (ta_addr a) (ta_addr b).
 
@@ -27,7 +37,7 @@ Definition svcparam_eqb (a b : svcparam) : bool :=
 Definition rdata_eqb (a b : rdata) : bool :=
   match a, b with
   | DA x, DA y | DAAAA x, DAAAA y => taddr_eqb x y
-  | DCNAME x, DCNAME y => eqb_bytes x y
+  | DCNAME x, DCNAME y | DPTR x, DPTR y => eqb_bytes x y
   | DHTTPS x, DHTTPS y => eqb_list svcparam_eqb x y
   | DOther t i, DOther t' i' => (t =? t') && (i =? i')
   | _, _ => false
@@ -44,9 +54,32 @@ Definition resp_eqb (a b : resp) : bool :=
     hosts-style rules are. *)
 Definition rule_entry_eqb (a b : N * option addr) : bool := eqb_option addr_eqb (snd a) (snd b).
 
+Definition rrvalue_eqb (a b : rrvalue) : bool :=
+  match a, b with
+  | VAddr x, VAddr y => addr_eqb x y
+  | VName x, VName y => eqb_bytes x y
+  | VNil, VNil => true
+  | _, _ => false
+  end.
+
+(** The Go side holds the values of a DNSRewriteResult in a map by record
+    type; both sides are brought into ascending type order (stably). *)
+Fixpoint insert_by_type (x : N * rrvalue) (l : list (N * rrvalue)) : list (N * rrvalue) :=
+  match l with
+  | nil => x :: nil
+  | y :: r => if fst x <? fst y then x :: l else y :: insert_by_type x r
+  end.
+Definition by_type (l : list (N * rrvalue)) : list (N * rrvalue) := fold_right insert_by_type nil l.
+
+Definition drw_eqb (a b : drwresult) : bool :=
+  (dw_rcode a =? dw_rcode b) &&
+  eqb_list (fun x y => (fst x =? fst y) && rrvalue_eqb (snd x) (snd y)) (by_type (dw_resp a)) (by_type (dw_resp b)).
+
 Definition result_eqb (a b : result) : bool :=
   reason_eqb (r_reason a) (r_reason b) && Bool.eqb (r_filtered a) (r_filtered b) &&
-  eqb_bytes (r_service a) (r_service b) && eqb_list rule_entry_eqb (r_rules a) (r_rules b).
+  eqb_bytes (r_service a) (r_service b) && eqb_list rule_entry_eqb (r_rules a) (r_rules b) &&
+  eqb_bytes (r_canon a) (r_canon b) && eqb_list addr_eqb (r_iplist a) (r_iplist b) &&
+  eqb_option drw_eqb (r_drw a) (r_drw b).
 
 Definition call_eqb (a b : bytes * N) : bool := eqb_bytes (fst a) (fst b) && (snd a =? snd b).
 
@@ -55,7 +88,9 @@ Definition outcome_eqb (a b : outcome) : bool :=
   eqb_list call_eqb (o_calls a) (o_calls b) &&
   (* the result is observed through the query log only *)
   (if o_logged a then result_eqb (o_result a) (o_result b) && Bool.eqb (o_orig_kept a) (o_orig_kept b) else true) &&
-  Bool.eqb (o_logged a) (o_logged b).
+  Bool.eqb (o_logged a) (o_logged b) &&
+  (* the question of the delivered message *)
+  (match o_resp a with Some _ => eqb_bytes (o_qname a) (o_qname b) | None => true end).
 
 Definition rr_eqb_mod_ttl (a b : rr) : bool :=
   eqb_bytes (rr_name a) (rr_name b) && rdata_eqb (rr_data a) (rr_data b).
@@ -71,19 +106,31 @@ Definition repeat_eqb (m obs : outcome) : bool :=
   (if o_logged m then result_eqb (o_result m) (o_result obs) && Bool.eqb (o_orig_kept m) (o_orig_kept obs) else true) &&
   Bool.eqb (o_logged m) (o_logged obs).
 
+Fixpoint ss_lookup (tbl : list (bytes * N * ssverdict)) (h : bytes) (qt : N) : option ssverdict :=
+  match tbl with
+  | nil => None
+  | (h', qt', v) :: rest => if eqb_bytes h' h && (qt' =? qt) then Some v else ss_lookup rest h qt
+  end.
+
+(** The scripted upstream: answers by (lower-cased) question name, [up]
+    for every other name. *)
+Definition scripted (ups : list (bytes * option resp)) (up : option resp) : upstream :=
+  fun name _ => match assoc_bytes ups (lower name) with Some r => r | None => up end.
+
 Definition model (c : case) : outcome :=
   match c with
-  | CPipe cf allow block sb par q up _
-  | CRepeat cf allow block sb par q up _ =>
+  | CPipe cf allow block sb par ss q ups up _
+  | CRepeat cf allow block sb par ss q ups up _ =>
       process (match_request allow) (match_request block)
-              (fun h => mem_bytes h sb) (fun h => mem_bytes h par)
-              cf (fun _ _ => up) q
+              (fun h => mem_bytes h sb) (fun h => mem_bytes h par) (ss_lookup ss)
+              Rewrites.isort
+              cf (scripted ups up) q
   end.
 
 Definition case_ok (c : case) : bool :=
   match c with
-  | CPipe _ _ _ _ _ _ _ obs => outcome_eqb (model c) obs
-  | CRepeat _ _ _ _ _ _ _ obs => repeat_eqb (model c) obs
+  | CPipe _ _ _ _ _ _ _ _ _ obs => outcome_eqb (model c) obs
+  | CRepeat _ _ _ _ _ _ _ _ _ obs => repeat_eqb (model c) obs
   end.
 
 Definition mismatches := Base.Run.mismatches case_ok.
